@@ -165,108 +165,101 @@ func runC03(c *core.Ctx) {
 	sort.Slice(consumers, func(i, j int) bool { return core.FuncKey(consumers[i].fn) < core.FuncKey(consumers[j].fn) })
 
 	// ---------- C03.flags ----------
-	c.Rule("C03.flags", "the function translating DecodeOptions to refmt's cbor.DecodeOptions stores constant true into RejectIndefinite and CoerceUndefToNull on every path, and into RejectNonMinimalInteger, RejectNaN, RejectInfinity on every path where RelaxedDecode is false; no other value is ever stored to those fields; cbor.NewDecoder in Decode receives exactly that function's result", 6)
-	var optFn *ssa.Function
-	for _, fn := range p.ModFns {
-		pk := core.FuncPkg(fn)
-		if pk == nil || core.RelPkg(pk.Path()) != rel || fn.Signature.Results().Len() != 1 || fn.Synthetic != "" {
-			continue
-		}
-		if n, ok := types.Unalias(fn.Signature.Results().At(0).Type()).(*types.Named); ok && n.Obj().Name() == "DecodeOptions" && n.Obj().Pkg().Path() == "github.com/polydawn/refmt/cbor" {
-			optFn = fn
-		}
-	}
-	if optFn == nil {
-		c.Undecided(rel+"#options-translation", "-", "no function returning refmt cbor.DecodeOptions found")
+	c.Rule("C03.flags", "the refmt cbor.DecodeOptions value that DecodeOptions.Decode hands to cbor.NewDecoder (built in a translation helper or inline) has received constant true in RejectIndefinite and CoerceUndefToNull on every path to that call, and in RejectNonMinimalInteger, RejectNaN, RejectInfinity on every path where RelaxedDecode is false; no other value is ever stored to those fields of it", 6)
+	if dec := p.Func(rel, "DecodeOptions", "Decode"); dec == nil {
+		c.Undecided(rel+".DecodeOptions.Decode", "-", "not found")
 	} else {
-		key := core.FuncKey(optFn)
-		// the returned local, plus every local whose whole value is copied into it
-		optsSet := map[ssa.Value]bool{}
-		for _, ret := range core.Returns(optFn) {
-			if u, ok := ret.Results[0].(*ssa.UnOp); ok {
-				if al, ok := u.X.(*ssa.Alloc); ok {
-					optsSet[al] = true
-				}
+		key := core.FuncKey(dec)
+		rg := core.RegionOf(dec)
+		var newDec ssa.CallInstruction
+		for _, ci := range core.CallsR(dec) {
+			if core.IsPkgFunc(ci, "github.com/polydawn/refmt/cbor", "NewDecoder") {
+				newDec = ci
 			}
 		}
-		for changed := true; changed; {
-			changed = false
-			core.Instrs(optFn, func(in ssa.Instruction) {
-				if st, ok := in.(*ssa.Store); ok && optsSet[st.Addr] {
-					if u, ok := st.Val.(*ssa.UnOp); ok {
-						if al, ok := u.X.(*ssa.Alloc); ok && !optsSet[al] {
-							optsSet[al] = true
-							changed = true
-						}
-					}
-				}
-			})
+		isRefmtOpts := func(t types.Type) bool {
+			n := namedOfType(t)
+			return n != nil && n.Obj().Name() == "DecodeOptions" && n.Obj().Pkg() != nil && n.Obj().Pkg().Path() == "github.com/polydawn/refmt/cbor"
 		}
-		opts := optsSet
-		if len(optsSet) == 0 {
-			c.Undecided(key+"#opts", p.Pos(optFn.Pos()), "options value is not built in a local")
+		if newDec == nil {
+			c.Undecided(key+"#newdecoder", p.Pos(dec.Pos()), "no cbor.NewDecoder call in DecodeOptions.Decode (or its helpers)")
 		} else {
-			for _, ret := range core.Returns(optFn) {
-				u, ok := ret.Results[0].(*ssa.UnOp)
-				c.Check(ok && optsSet[u.X], key+"#returns-built-options", p.Pos(ret.Pos()), "returns the options value it built", "returns something other than the options value whose flags were set")
+			// the locals the options value is built in: every cbor.DecodeOptions local the argument derives from
+			// (the one NewDecoder is given, the one a translation helper returns by value, copies between them)
+			opts := map[ssa.Value]bool{}
+			for w := range core.BackSlice(newDec.Common().Args[0], core.SliceOpts{Stores: true, Region: rg}) {
+				if al, ok := w.(*ssa.Alloc); ok && isRefmtOpts(al.Type()) {
+					opts[al] = true
+				}
 			}
-			relaxedTrue := core.BoolEdgesWhere(optFn, func(v ssa.Value) bool { return core.IsFieldRef(v, "DecodeOptions", "RelaxedDecode") }, true)
-			storeTrue := func(field string) func(ssa.Instruction) bool {
-				return func(in ssa.Instruction) bool {
+			// whole-value copies between such locals (opts := cbor.DecodeOptions{..} copies a literal into the variable)
+			for changed := true; changed; {
+				changed = false
+				core.InstrsR(dec, func(in ssa.Instruction) {
 					st, ok := in.(*ssa.Store)
 					if !ok {
-						return false
+						return
+					}
+					dst, ok1 := st.Addr.(*ssa.Alloc)
+					u, ok2 := st.Val.(*ssa.UnOp)
+					if !ok1 || !ok2 || !isRefmtOpts(dst.Type()) {
+						return
+					}
+					src, ok3 := u.X.(*ssa.Alloc)
+					if !ok3 {
+						return
+					}
+					if opts[src] != opts[dst] {
+						opts[src], opts[dst] = true, true
+						changed = true
+					}
+				})
+			}
+			if len(opts) == 0 {
+				c.Undecided(key+"#opts", p.Pos(newDec.Pos()), "the options value given to cbor.NewDecoder is not built in a local")
+			} else {
+				c.OK(key+"#newdecoder-options", p.Pos(newDec.Pos()), fmt.Sprintf("cbor.NewDecoder receives an options value built in %d local(s) of the decoder", len(opts)))
+				relaxedTrue := core.BoolEdgesWhere(dec, func(v ssa.Value) bool { return core.IsFieldRef(v, "DecodeOptions", "RelaxedDecode") }, true)
+				storeTrue := func(field string) func(ssa.Instruction) bool {
+					return func(in ssa.Instruction) bool {
+						st, ok := in.(*ssa.Store)
+						if !ok {
+							return false
+						}
+						fa, ok := st.Addr.(*ssa.FieldAddr)
+						if !ok || !opts[fa.X] || core.FieldName(fa) != "DecodeOptions."+field {
+							return false
+						}
+						b, isB := core.ConstBool(st.Val)
+						return isB && b
+					}
+				}
+				for _, f := range []string{"RejectIndefinite", "CoerceUndefToNull"} {
+					path, reached := core.Reach(dec, nil, isTarget(newDec), nil, storeTrue(f))
+					c.Check(!reached, key+"#always-"+f, p.Pos(newDec.Pos()), f+"=true on every path", "the tokenizer can be created without "+f+" having been set to true", p.Witness(path)...)
+				}
+				for _, f := range []string{"RejectNonMinimalInteger", "RejectNaN", "RejectInfinity"} {
+					path, reached := core.Reach(dec, nil, isTarget(newDec), relaxedTrue, storeTrue(f))
+					c.Check(!reached, key+"#strict-"+f, p.Pos(newDec.Pos()), f+"=true on every non-relaxed path", "in strict mode (RelaxedDecode false) the tokenizer can be created without "+f+" having been set to true", p.Witness(path)...)
+				}
+				// no non-true store to any Reject*/Coerce* field
+				core.InstrsR(dec, func(in ssa.Instruction) {
+					st, ok := in.(*ssa.Store)
+					if !ok {
+						return
 					}
 					fa, ok := st.Addr.(*ssa.FieldAddr)
-					if !ok || !opts[fa.X] || core.FieldName(fa) != "DecodeOptions."+field {
-						return false
+					if !ok || !opts[fa.X] {
+						return
 					}
-					b, isB := core.ConstBool(st.Val)
-					return isB && b
-				}
-			}
-			isRet := func(in ssa.Instruction) bool { _, ok := in.(*ssa.Return); return ok }
-			for _, f := range []string{"RejectIndefinite", "CoerceUndefToNull"} {
-				path, reached := core.Reach(optFn, nil, isRet, nil, storeTrue(f))
-				c.Check(!reached, key+"#always-"+f, p.Pos(optFn.Pos()), f+"=true on every path", "a return is reachable without "+f+" having been set to true", p.Witness(path)...)
-			}
-			for _, f := range []string{"RejectNonMinimalInteger", "RejectNaN", "RejectInfinity"} {
-				path, reached := core.Reach(optFn, nil, isRet, relaxedTrue, storeTrue(f))
-				c.Check(!reached, key+"#strict-"+f, p.Pos(optFn.Pos()), f+"=true on every non-relaxed path", "in strict mode (RelaxedDecode false) a return is reachable without "+f+" having been set to true", p.Witness(path)...)
-			}
-			// no non-true store to any Reject*/Coerce* field
-			core.Instrs(optFn, func(in ssa.Instruction) {
-				st, ok := in.(*ssa.Store)
-				if !ok {
-					return
-				}
-				fa, ok := st.Addr.(*ssa.FieldAddr)
-				if !ok || !opts[fa.X] {
-					return
-				}
-				fname := core.FieldName(fa)
-				if strings.HasPrefix(fname, "DecodeOptions.Reject") || fname == "DecodeOptions.CoerceUndefToNull" {
-					if b, isB := core.ConstBool(st.Val); !isB || !b {
-						c.Fail(key+"#store-"+fname, p.Pos(st.Pos()), "a strictness flag is assigned something other than constant true")
+					fname := core.FieldName(fa)
+					if strings.HasPrefix(fname, "DecodeOptions.Reject") || fname == "DecodeOptions.CoerceUndefToNull" {
+						if b, isB := core.ConstBool(st.Val); !isB || !b {
+							c.Fail(key+"#store-"+fname, p.Pos(st.Pos()), "a strictness flag is assigned something other than constant true")
+						}
 					}
-				}
-			})
-		}
-		// NewDecoder receives the result
-		dec := p.Func(rel, "DecodeOptions", "Decode")
-		found := false
-		if dec != nil {
-			for _, ci := range core.Calls(dec) {
-				if core.IsPkgFunc(ci, "github.com/polydawn/refmt/cbor", "NewDecoder") {
-					found = true
-					arg := core.Strip(ci.Common().Args[0])
-					cv, ok := arg.(*ssa.Call)
-					c.Check(ok && cv.Call.StaticCallee() == optFn, core.FuncKey(dec)+"#newdecoder-options", p.Pos(ci.Pos()), "cbor.NewDecoder receives the translated options", "cbor.NewDecoder is not given the result of the options-translation function")
-				}
+				})
 			}
-		}
-		if !found {
-			c.Undecided(rel+".Decode#newdecoder", "-", "no cbor.NewDecoder call in DecodeOptions.Decode")
 		}
 	}
 
@@ -275,7 +268,7 @@ func runC03(c *core.Ctx) {
 	for _, tc := range consumers {
 		key := core.FuncKey(tc.fn)
 		untagged := core.BoolEdgesWhere(tc.fn, func(v ssa.Value) bool { return tc.fieldLoad(v, "Tagged") }, false)
-		for _, ci := range core.CallsR(tc.fn) {
+		for _, ci := range tc.calls() {
 			name, ok := assemblerCall(ci)
 			if !ok || !isCommit(name) {
 				continue
@@ -316,7 +309,7 @@ func runC03(c *core.Ctx) {
 	}
 	for _, tc := range consumers {
 		key := core.FuncKey(tc.fn)
-		for _, ci := range core.CallsR(tc.fn) {
+		for _, ci := range tc.calls() {
 			name, ok := assemblerCall(ci)
 			if !ok || name != "AssignLink" {
 				continue
@@ -428,7 +421,7 @@ func runC03(c *core.Ctx) {
 			}
 			return false
 		}
-		for _, ci := range core.CallsR(tc.fn) {
+		for _, ci := range tc.calls() {
 			name, ok := assemblerCall(ci)
 			if !ok || (name != "Finish" && name != "AssembleEntry" && name != "AssembleValue") {
 				continue
@@ -452,7 +445,7 @@ func runC03(c *core.Ctx) {
 	c.Rule("C03.keys", "AssembleEntry receives Token.Str of a token tested to be TString in the same epoch; on every path where RelaxedDecode is false it passes a comma-ok lookup of that key in a set whose hit cannot reach AssembleEntry, and an insertion of the same key into that set", 3)
 	for _, tc := range consumers {
 		key := core.FuncKey(tc.fn)
-		for _, ci := range core.CallsR(tc.fn) {
+		for _, ci := range tc.calls() {
 			name, ok := assemblerCall(ci)
 			if !ok || name != "AssembleEntry" {
 				continue
@@ -531,7 +524,7 @@ func runC03(c *core.Ctx) {
 	c.Rule("C03.uint", "AssignInt of a converted unsigned token value is dominated by an edge implying Token.Uint <= MaxInt64", 1)
 	for _, tc := range consumers {
 		key := core.FuncKey(tc.fn)
-		for _, ci := range core.CallsR(tc.fn) {
+		for _, ci := range tc.calls() {
 			name, ok := assemblerCall(ci)
 			if !ok || name != "AssignInt" || !tc.derivesFromField(ci.Common().Args[0], "Uint") {
 				continue
